@@ -49,6 +49,7 @@ func chanOpsOf(fn *ssa.Function) []chanOp {
 //	timer          : time.Timer.C / time.After / time.Ticker.C
 //	reply          : a channel created by the requester and carried inside the request
 //	request/error  : an unbuffered field channel of a long-lived object
+//
 // signalFields: struct fields of type chan struct{} that are closed somewhere
 // in scope and never sent on: closing broadcasts to every receiver, which is
 // what makes such a channel a cancel / completion signal whatever its name is.
@@ -745,7 +746,7 @@ func c13CallbackOrder(c *Ctx) {
 	connCB := find(scRun, isInvoke("OnConnClose"))
 	wait := find(scRun, func(in ssa.Instruction) bool {
 		ci, ok := in.(*ssa.Call)
-		return ok && ci.Call.StaticCallee() != nil && ci.Call.StaticCallee().Name() == "wait"
+		return ok && isFn(ci.Call.StaticCallee(), "", "serverConnReader.wait")
 	})
 	r.Check(connCB != nil && wait != nil && instrDominates(wait, connCB), "C13/CALLBACK-ORDER", "ServerConn.run joins its reader before OnConnClose", p.Pos(scRun.Pos()), "reader.wait() dominates the notification", "OnConnClose can be delivered while the reader goroutine is still running")
 }
@@ -817,7 +818,7 @@ func triggerBeforeWaitRule(c *Ctx, rule string) {
 	}
 	// ServerConn.run: socket closed (or handed to the tunnel) before reader.wait()
 	if fn := p.Func("", "ServerConn.run"); r.Anchor(rule, "ServerConn.run", fn != nil) {
-		wait := findCall(fn, func(c *ssa.Call) bool { return c.Call.StaticCallee() != nil && c.Call.StaticCallee().Name() == "wait" })
+		wait := findCall(fn, func(c *ssa.Call) bool { return isFn(c.Call.StaticCallee(), "", "serverConnReader.wait") })
 		if wait == nil {
 			r.Fail(rule, "ServerConn.run joins its reader", p.Pos(fn.Pos()), "reader.wait() not found")
 		} else {
